@@ -39,6 +39,48 @@ def _toktype_arg(b, t):
     return None
 
 
+ENTRY_FNS = ("new", "load", "load_from_string", "load_impl", "load_fragment", "load_fragment_file", "<impl specification::A2lFile>::write_to_string", "<impl specification::A2lFile>::write")
+ENTRY_CALLS = re.compile(r"(tokenizer::tokenize|parser::ParserState::(new|set_file_version)|ParseableA2lObject>?::parse|a2ml::parse_a2ml|loader::load|load_impl|load_fragment|fmt::Arguments::new|str::(trim\w*|strip_\w+|replace\w*)|String::(push_str|push|insert_str|insert)|fs::write|File::create|write_all|Vec::push|stringify|Writer::\w+)$")
+
+
+def entry_table(prog):
+    """the public entry points in lib.rs (load*, load_fragment*, write*, new): which text is handed to the scanner and how the parser
+    is set up -- calls with their literal arguments, format templates with the origin of what is inserted, control predicates"""
+    from . import c16
+    A = sym.Analyzer(prog, opaque=[r".*"])
+    fids = [f for f in ENTRY_FNS if f in prog.bodies]
+
+    def eff(b, S, ev):
+        nm = mir.strip_generics(ev[1])
+        if not ENTRY_CALLS.search(nm):
+            return None
+        last = nm.split("::")[-1]
+        if nm.endswith("fmt::Arguments::new"):
+            tmpl = sorted(sym.fmt(t) for t in (ev[2][0] if ev[2] else []))
+            pt = b.blocks[ev[6]]["t"]
+            ins = []
+            # the array of formatting arguments: where each inserted value comes from
+            for a in pt["args"][1:]:
+                ap = mir.op_place(a)
+                if ap is None or ap["p"]:
+                    continue
+                for bi, si, st in b.stmts():
+                    if st["k"] == "assign" and not st["p"]["p"] and st["rv"]["r"] == "agg" and st["rv"].get("kind") == "array":
+                        for o in st["rv"]["ops"]:
+                            op = mir.op_place(o)
+                            if op is not None and not op["p"]:
+                                ch = c16.producer_chain(b, op["l"])
+                                ins.append("<-".join(x for x in ch if x not in ("new_display", "new_debug")) or "value")
+            return "format %s (%s)" % ("|".join(tmpl), ", ".join(sorted(set(ins))))
+        lits = []
+        for i, a in enumerate(ev[2] or []):
+            cs = sorted(sym.fmt(t) for t in a if isinstance(t, tuple) and t[0] == "const")
+            if cs and len(cs) == len(a) and all(re.fullmatch(r"true|false|-?\d+_[iu](\d+|size)|\"[^\"]*\"|'.*'", c) for c in cs):
+                lits.append("#%d=%s" % (i, "|".join(cs)))
+        return "call %s(%s)" % (last, ", ".join(lits))
+    return diag.table_for(prog, A, fids, eff)
+
+
 def last_cursor_op(prog, b):
     """forward may-analysis: for every block the set of operations that moved the token cursor last on some path to its terminator"""
     st = [None] * len(b.blocks)
@@ -183,12 +225,13 @@ def run(chk):
     chk.rules = [r for r in chk.rules if r["rule"] == "R05-slot"]
     genrules.r01_dual(chk, rule="R05-dual", inc_rule="R05-dual-inc")
     genrules.r05_new(chk)
-    genrules.expansion_diffs(chk, "R05-shipped", lambda k: ("[stringify]" in k) or "[new]" in k,
+    genrules.expansion_diffs(chk, "R05-shipped", lambda k: bool(re.search(r"\[[^\]]*\b(stringify|new)\b[^\]]*\]", k)),
                              "generated stringify/new items identical (canonical form) to the generator's output")
     plumbing.r05_plumb(chk)
     r05_adjacent(chk)
     r05_token(chk)
     r05_endtoken(chk)
+    diag.compare(chk, "R05-entry", "entry", entry_table(mir.prog()), "public entry points of lib.rs: the text handed to the scanner (wrapper of load_fragment, banner of write), parser set-up, calls with literal arguments; compared with the reviewed table", floor=20)
     from . import writertab
     writertab.compare(chk, "R05-writer", fn_filter=lambda fn: fn.split("::")[-1] in ("add_whitespace", "add_group", "add_str_raw", "add_quoted_string", "add_str"), floor=30)
     diag.compare(chk, "R05-cursor", "cursor", cursor_table(mir.prog()), "steps of the tokenizer's scan position / line counter with their control predicates (which bytes end a token, what is trimmed before /end A2ML), compared with the reviewed table", floor=29)
